@@ -105,6 +105,8 @@ def _gen_adapter_new(rng, uid, allow_prefix=True, allow_auth=False):
         if rng.random() < 0.15:
             a["falsy"] = True       # the adapter object is an (empty) container as well: bool(adapter) is False
             return a
+        if rng.random() < 0.15:
+            a["rebind"] = True      # "defaults merged with what is there": assigns a new mapping to req_args.headers
     elif r < 0.56:
         return {"a": "drop", "tag": f"d{uid}"}
     elif r < 0.64:
